@@ -254,4 +254,319 @@ Proof.
   rewrite gv_cond, drop8_hdr8. reflexivity.
 Qed.
 
+(* ---- unfolding the drive loop ---- *)
+Definition drive_tail (f : nat) (s : state) (r out : bytes) : dres :=
+  match r with [] => DOk [] s out | _ => drive norm maxc f s r out end.
+
+Lemma drive_cont f s d out r s' o : is_final s = false -> drive1 norm maxc s d = (Continue r s', o) ->
+  drive norm maxc (S f) s d out = drive_tail f s' r (out ++ o).
+Proof. intros Hf H. cbn [drive]. rewrite Hf, H. destruct r; reflexivity. Qed.
+
+Lemma drive_break f s d out r s' o : is_final s = false -> drive1 norm maxc s d = (Break r s', o) ->
+  drive norm maxc (S f) s d out = DOk r s' (out ++ o).
+Proof. intros Hf H. cbn [drive]. rewrite Hf, H. reflexivity. Qed.
+
+Lemma drive_tail_nil f s out : drive_tail f s [] out = DOk [] s out.
+Proof. reflexivity. Qed.
+
+Lemma drive_tail_ne f s r out : r <> [] -> drive_tail f s r out = drive norm maxc f s r out.
+Proof. destruct r; [congruence|reflexivity]. Qed.
+
+Lemma len_pos_ne {A} (l : list A) : 0 < len l -> l <> [].
+Proof. destruct l; [unfold len; cbn [length]; lia|discriminate]. Qed.
+
+Lemma ne_len_pos {A} (l : list A) : l <> [] -> 0 < len l.
+Proof. destruct l; [congruence|rewrite len_cons; lia]. Qed.
+
+(* ---- second stage: skipping ---- *)
+Lemma skip_drive_exact wrap nxt p q data : len data = p + q ->
+  skip_drive wrap nxt p q data = Continue [] nxt.
+Proof.
+  intros H. unfold skip_drive. destruct (N.ltb_spec (len data) p); [lia|].
+  destruct (N.ltb_spec (len data) (p + q)); [lia|]. rewrite drop_all by lia. reflexivity.
+Qed.
+
+Lemma tail_into_skip f wrap nxt p q data out :
+  (forall p q d, drive1 norm maxc (wrap p q) d = (skip_drive wrap nxt p q d, [])) ->
+  (forall p q, is_final (wrap p q) = false) -> len data = p + q ->
+  drive_tail (S f) (into_skip wrap nxt p q) data out = DOk [] nxt out.
+Proof.
+  intros Hw Hf Hl. unfold into_skip.
+  destruct (N.eqb_spec p 0) as [Hp|Hp]; [destruct (N.eqb_spec q 0) as [Hq|Hq]|]; cbn [andb].
+  - rewrite (len_zero_nil data) by lia. reflexivity.
+  - rewrite drive_tail_ne by (apply len_pos_ne; lia).
+    rewrite (drive_cont f _ _ _ [] nxt []) by (rewrite ?Hw, ?skip_drive_exact; trivial).
+    rewrite app_nil_r. reflexivity.
+  - rewrite drive_tail_ne by (apply len_pos_ne; lia).
+    rewrite (drive_cont f _ _ _ [] nxt []) by (rewrite ?Hw, ?skip_drive_exact; trivial).
+    rewrite app_nil_r. reflexivity.
+Qed.
+
+(* ---- second stage: a GetValues body ---- *)
+Lemma values_drive_exact wrap nxt body pad :
+  values_drive maxc wrap nxt 0 (len body) (len pad) (body ++ pad) =
+    (Continue [] nxt, if len body =? 0 then [] else gv_reply maxc body).
+Proof.
+  unfold values_drive. destruct (N.ltb_spec 0 (len body)) as [Hp|Hp].
+  - destruct (N.eqb_spec (len body) 0) as [E|_]; [lia|].
+    replace (N.min (len (body ++ pad)) (len body)) with (len body) by (rewrite len_app; lia).
+    rewrite take_len_app. unfold gv_reply. destruct (nv_run body) as [ps rest]. cbn [fst].
+    destruct (N.ltb_spec (len (body ++ pad)) (len body)) as [H|_]; [rewrite len_app in H; lia|].
+    rewrite drop_len_app. destruct (N.ltb_spec (len pad) (len pad)); [lia|].
+    rewrite drop_all by lia. reflexivity.
+  - assert (E : len body = 0) by lia. rewrite E. rewrite (len_zero_nil body E). cbn [app].
+    change (0 =? 0) with true. cbn iota.
+    destruct (N.ltb_spec (len pad) (len pad)); [lia|]. rewrite drop_all by lia. reflexivity.
+Qed.
+
+Lemma tail_values f (wrap : N -> N -> N -> state) nxt body pad out :
+  (forall v p q d, drive1 norm maxc (wrap v p q) d = values_drive maxc wrap nxt v p q d) ->
+  (forall v p q, is_final (wrap v p q) = false) -> body ++ pad <> [] ->
+  drive_tail (S f) (wrap 0 (len body) (len pad)) (body ++ pad) out =
+    DOk [] nxt (out ++ if len body =? 0 then [] else gv_reply maxc body).
+Proof.
+  intros Hw Hf Hne. rewrite drive_tail_ne by exact Hne.
+  rewrite (drive_cont f _ _ _ [] nxt (if len body =? 0 then [] else gv_reply maxc body));
+    [reflexivity|apply Hf|]. rewrite Hw. apply values_drive_exact.
+Qed.
+
+(* ---- second stage: a Params payload (whole record body, then the padding) ---- *)
+Lemma small_usize n : n < SIZE_LIMIT + 65536 -> n <= USIZE_MAX.
+Proof. unfold SIZE_LIMIT, USIZE_MAX. lia. Qed.
+
+Definition params_next (i : inner) (body : bytes) : inner :=
+  mkInner (env_extend norm (ireq i) (fst (nv_run (ibuf i ++ body)))) (snd (nv_run (ibuf i ++ body))).
+
+Lemma p_pad_exact i pad : p_pad i (len pad) pad = (Break [] (Params i 0 0), []).
+Proof.
+  unfold p_pad. destruct (N.ltb_spec 0 (len pad)) as [H|H].
+  - destruct (N.leb_spec (len pad) (len pad)); [|lia]. rewrite N.sub_diag. reflexivity.
+  - rewrite (len_zero_nil pad) by lia. apply p_head_short. rewrite len_nil. lia.
+Qed.
+
+Lemma params_body_exact i body pad :
+  inner_ok i -> bytes_ok body -> len (ibuf i ++ body) <= USIZE_MAX -> 0 < len body ->
+  params_drive norm i (len body) (len pad) (body ++ pad) =
+    (Break [] (Params (params_next i body) 0 0), []) /\ inner_ok (params_next i body).
+Proof.
+  intros Hi Hb Hsz Hp. rewrite params_drive_eq.
+  destruct (N.ltb_spec 0 (len body)); [|lia].
+  destruct (N.ltb_spec (len (body ++ pad)) (len body)) as [H1|_]; [rewrite len_app in H1; lia|].
+  rewrite take_len_app, drop_len_app.
+  destruct (HS1 i body true Hi Hb Hsz) as (i' & c & Hps & Hi' & _ & Hc & _).
+  specialize (Hc eq_refl). subst c. rewrite Hps. rewrite N.eqb_refl. cbn [negb].
+  pose proof (HS2 i body true i' (len body) Hi Hb Hsz Hps) as H2.
+  unfold params_next. destruct (nv_run (ibuf i ++ body)) as [ps rest]. cbn [fst snd].
+  destruct H2 as [Hq Hr]. rewrite drop_all, app_nil_r in Hr by lia.
+  assert (E : i' = mkInner (env_extend norm (ireq i) ps) rest).
+  { destruct i' as [rq bf]. cbn [ireq ibuf] in *. subst. reflexivity. }
+  rewrite <- E. split; [apply p_pad_exact|exact Hi'].
+Qed.
+
+Lemma tail_params_pad f i pad out :
+  drive_tail (S f) (Params i 0 (len pad)) pad out = DOk [] (Params i 0 0) out.
+Proof.
+  destruct (N.eqb_spec (len pad) 0) as [E|E].
+  - rewrite (len_zero_nil pad E). reflexivity.
+  - rewrite drive_tail_ne by (apply len_pos_ne; lia).
+    rewrite (drive_break f _ _ _ [] (Params i 0 0) []); [rewrite app_nil_r; reflexivity|reflexivity|].
+    cbn [drive1]. rewrite params_drive_eq. change (0 <? 0) with false. cbn iota. apply p_pad_exact.
+Qed.
+
+(* ---- one complete record from a record boundary ---- *)
+Definition sbuf (s : state) : N :=
+  match s with
+  | Params i _ _ | ParamsSkip i _ _ | ParamsValues i _ _ _ => len (ibuf i)
+  | _ => 0
+  end.
+
+Definition gv_empty (r : rcd) : Prop := rt r = RT_GetValues /\ rid r = 0 /\ rbody r = [] /\ rpad r = [].
+
+Lemma HeaderSkip_drive1 p q d : drive1 norm maxc (HeaderSkip p q) d = (skip_drive HeaderSkip Header p q d, []).
+Proof. reflexivity. Qed.
+Lemma ParamsSkip_drive1 i p q d :
+  drive1 norm maxc (ParamsSkip i p q) d = (skip_drive (ParamsSkip i) (Params i 0 0) p q d, []).
+Proof. reflexivity. Qed.
+Lemma DoneSkip_drive1 rq p q d : drive1 norm maxc (DoneSkip rq p q) d = (skip_drive (DoneSkip rq) (Done rq) p q d, []).
+Proof. reflexivity. Qed.
+
+Lemma begin_decode_cases body :
+  begin_decode body =
+    let role := be16 (nthN body 0) (nthN body 1) in
+    (role, if known_role role then Some (role, nthN body 2) else None).
+Proof. reflexivity. Qed.
+
+Lemma rec_step_header f r : rcd_ok r ->
+  match rec_step norm Header r with
+  | RNext s' => exists s'', drive norm maxc (S (S f)) Header (enc_rcd r) [] = DOk [] s'' (reply_for maxc Idle r) /\
+                 settle s'' = s' /\ state_ok s'' /\ sbuf s'' = 0 /\ (~ gv_empty r -> s'' = s')
+  | RFatal e => exists rest, drive norm maxc (S (S f)) Header (enc_rcd r) [] = DOk rest (Fatal e) []
+  end.
+Proof.
+  intros Hr. unfold rec_step, reply_for. rewrite enc_rcd_eq.
+  destruct (known_type (rt r)) eqn:Hk; cbn [negb].
+  - destruct (N.eqb_spec (rt r) RT_BeginRequest) as [Hb|Hb].
+    + rewrite Hb. change (RT_BeginRequest =? RT_GetValues) with false. cbn [andb].
+      destruct (N.eqb_spec (len (rbody r)) 8) as [Hl|Hl]; cbn [negb andb].
+      * rewrite begin_decode_cases. cbv zeta.
+        destruct (known_role (be16 (nthN (rbody r) 0) (nthN (rbody r) 1))) eqn:Hkr; cbn [negb].
+        -- destruct (N.eqb_spec (rid r) 0) as [Hid|Hid].
+           ++ exists (rpad r). erewrite drive_break; [|reflexivity|].
+              2:{ cbn [drive1]. rewrite header_drive_begin by assumption. rewrite begin_decode_cases. cbv zeta.
+                  rewrite Hkr. destruct (N.eqb_spec (rid r) 0); [reflexivity|contradiction]. }
+              reflexivity.
+           ++ eexists. split; [|split; [|split; [|split]]].
+              ** erewrite drive_cont; [|reflexivity|].
+                 2:{ cbn [drive1]. rewrite header_drive_begin by assumption. rewrite begin_decode_cases. cbv zeta.
+                     rewrite Hkr. destruct (N.eqb_spec (rid r) 0); [contradiction|reflexivity]. }
+                 apply tail_params_pad.
+              ** reflexivity.
+              ** cbn [state_ok]. split; [|lia]. split; [constructor|reflexivity].
+              ** reflexivity.
+              ** reflexivity.
+        -- eexists. split; [|split; [|split; [|split]]].
+           ++ erewrite drive_cont; [|reflexivity|].
+              2:{ cbn [drive1]. rewrite header_drive_begin by assumption. rewrite begin_decode_cases. cbv zeta.
+                  rewrite Hkr. reflexivity. }
+              unfold header_skip_to. apply tail_into_skip; [apply HeaderSkip_drive1|reflexivity|lia].
+           ++ reflexivity.
+           ++ exact I.
+           ++ reflexivity.
+           ++ reflexivity.
+      * exists (hdr8 r ++ rbody r ++ rpad r). erewrite drive_break; [|reflexivity|].
+        2:{ cbn [drive1]. apply header_drive_begin_badlen; assumption. }
+        reflexivity.
+    + destruct (N.eqb_spec (rt r) RT_BeginRequest) as [?|_]; [contradiction|]. cbn [andb].
+      destruct ((rt r =? RT_GetValues) && (rid r =? 0)) eqn:Hgv.
+      * apply andb_true_iff in Hgv as [Hg1 Hg2]. apply N.eqb_eq in Hg1, Hg2.
+        destruct (N.eqb_spec (len (rbody r ++ rpad r)) 0) as [He|He].
+        -- apply len_zero_nil in He. apply app_eq_nil in He as [Eb Ep].
+           exists (HeaderValues 0 0 0). split; [|split; [|split; [|split]]].
+           ++ erewrite drive_cont; [|reflexivity|].
+              2:{ cbn [drive1]. rewrite header_drive_other by assumption. rewrite Hg1, Hg2. reflexivity. }
+              rewrite Eb, Ep. reflexivity.
+           ++ reflexivity.
+           ++ cbn [state_ok]. lia.
+           ++ reflexivity.
+           ++ intros Hn. exfalso. apply Hn. repeat split; assumption.
+        -- exists Header. split; [|split; [|split; [|split]]]; try reflexivity; try exact I.
+           erewrite drive_cont; [|reflexivity|].
+           2:{ cbn [drive1]. rewrite header_drive_other by assumption. rewrite Hg1, Hg2. reflexivity. }
+           rewrite (tail_values f HeaderValues Header); [reflexivity|reflexivity|reflexivity|].
+           intros E. rewrite E in He. apply He. reflexivity.
+      * exists Header. split; [|split; [|split; [|split]]]; try reflexivity; try exact I.
+        erewrite drive_cont; [|reflexivity|].
+        2:{ cbn [drive1]. rewrite header_drive_other by assumption. rewrite Hgv. reflexivity. }
+        unfold header_skip_to. apply tail_into_skip; [apply HeaderSkip_drive1|reflexivity|apply len_app].
+  - exists Header. split; [|split; [|split; [|split]]]; try reflexivity; try exact I.
+    erewrite drive_cont; [|reflexivity|].
+    2:{ cbn [drive1]. rewrite header_drive_unknown by assumption. reflexivity. }
+    unfold header_skip_to. apply tail_into_skip; [apply HeaderSkip_drive1|reflexivity|apply len_app].
+Qed.
+
+Lemma drive_S_nf f s d out : is_final s = false ->
+  drive norm maxc (S f) s d out =
+    match drive1 norm maxc s d with
+    | (PANIC n, _) => DPanic n
+    | (Break r s', o) => DOk r s' (out ++ o)
+    | (Continue r s', o) => drive_tail f s' r (out ++ o)
+    end.
+Proof.
+  intros Hf. cbn [drive]. rewrite Hf. destruct (drive1 norm maxc s d) as [[r s'|r s'|n] o]; try reflexivity.
+  destruct r; reflexivity.
+Qed.
+
+Ltac is_rt x :=
+  match x with
+  | RT_BeginRequest => idtac | RT_AbortRequest => idtac | RT_Params => idtac | RT_GetValues => idtac
+  end.
+Ltac rt_consts :=
+  repeat match goal with
+         | |- context [N.eqb ?a ?b] =>
+           is_rt a; is_rt b; let v := eval vm_compute in (N.eqb a b) in change (N.eqb a b) with v
+         end;
+  cbn [andb negb].
+
+Lemma tail_params_skip f i p q data out : len data = p + q ->
+  drive_tail (S f) (params_skip_to i p q) data out = DOk [] (Params i 0 0) out.
+Proof.
+  intros H. unfold params_skip_to. apply tail_into_skip; [apply ParamsSkip_drive1|reflexivity|exact H].
+Qed.
+
+Lemma tail_header_skip f p q data out : len data = p + q ->
+  drive_tail (S f) (header_skip_to p q) data out = DOk [] Header out.
+Proof.
+  intros H. unfold header_skip_to. apply tail_into_skip; [apply HeaderSkip_drive1|reflexivity|exact H].
+Qed.
+
+Lemma nv_run_rest_len d : len (snd (nv_run d)) <= len d.
+Proof. destruct (nv_run_rest d) as [pre [H _]]. rewrite H at 2. rewrite len_app. lia. Qed.
+
+Lemma rec_step_params f i r : inner_ok i -> len (ibuf i) < SIZE_LIMIT -> rcd_ok r ->
+  match rec_step norm (Params i 0 0) r with
+  | RNext s' => exists s'', drive norm maxc (S (S f)) (Params i 0 0) (enc_rcd r) []
+                             = DOk [] s'' (reply_for maxc (InParams (r_id (ireq i))) r) /\
+                 settle s'' = s' /\ state_ok s'' /\ sbuf s'' <= len (ibuf i) + len (rbody r) /\
+                 (~ gv_empty r -> s'' = s')
+  | RFatal e => exists rest, drive norm maxc (S (S f)) (Params i 0 0) (enc_rcd r) [] = DOk rest (Fatal e) []
+  end.
+Proof.
+  intros Hi Hsm Hr. pose proof Hr as (_ & _ & Hbl & _ & Hbok & _).
+  assert (Hok : state_ok (Params i 0 0)) by (cbn [state_ok]; split; [exact Hi|lia]).
+  unfold rec_step, reply_for. cbv beta iota. rewrite enc_rcd_eq.
+  rewrite drive_S_nf by reflexivity. cbn [drive1]. rewrite params_drive_00.
+  assert (Fskip : forall o, exists s'' : state,
+     drive_tail (S f) (params_skip_to i (len (rbody r)) (len (rpad r))) (rbody r ++ rpad r) ([] ++ o) = DOk [] s'' o /\
+     settle s'' = Params i 0 0 /\ state_ok s'' /\ sbuf s'' <= len (ibuf i) + len (rbody r) /\
+     (~ gv_empty r -> s'' = Params i 0 0)).
+  { intros o. exists (Params i 0 0). rewrite tail_params_skip by apply len_app.
+    split; [reflexivity|]. split; [reflexivity|]. split; [exact Hok|]. split; [cbn [sbuf]; lia|reflexivity]. }
+  destruct (known_type (rt r)) eqn:Hk; cbn [negb].
+  2:{ rewrite p_head_unknown by assumption. apply Fskip. }
+  rewrite p_head_known by assumption. cbv zeta.
+  destruct (N.eqb_spec (rt r) RT_Params) as [Ht|Ht].
+  { rewrite Ht. rt_consts. destruct (N.eqb_spec (rid r) (r_id (ireq i))) as [Hid|Hid]; cbn [andb negb].
+    2:{ apply Fskip. }
+    destruct (N.eqb_spec (len (rbody r)) 0) as [Hl|Hl].
+    - exists (Done (ireq i)). split; [|split; [|split; [|split]]]; try reflexivity; try exact I; [|cbn [sbuf]; lia].
+      apply tail_into_skip; [apply DoneSkip_drive1|reflexivity|rewrite len_app; lia].
+    - destruct (params_body_exact i (rbody r) (rpad r) Hi Hbok) as [Hpd Hin].
+      { apply small_usize. rewrite len_app. lia. } { lia. }
+      pose proof (nv_run_rest_len (ibuf i ++ rbody r)) as Hn. rewrite len_app in Hn.
+      unfold params_next in Hpd, Hin. destruct (nv_run (ibuf i ++ rbody r)) as [ps rest]. cbn [fst snd] in *.
+      exists (Params (mkInner (env_extend norm (ireq i) ps) rest) 0 0).
+      split; [|split; [|split; [|split]]].
+      + rewrite drive_tail_ne by (apply len_pos_ne; rewrite len_app; lia).
+        erewrite drive_break; [|reflexivity|cbn [drive1]; exact Hpd]. reflexivity.
+      + reflexivity.
+      + cbn [state_ok]. split; [exact Hin|lia].
+      + cbn [sbuf ibuf]. exact Hn.
+      + reflexivity. }
+  cbn [andb].
+  destruct (N.eqb_spec (rt r) RT_AbortRequest) as [Ht2|Ht2].
+  { rewrite Ht2. rt_consts. destruct (N.eqb_spec (rid r) (r_id (ireq i))) as [Hid|Hid]; cbn [andb negb].
+    2:{ apply Fskip. }
+    exists Header. split; [|split; [|split; [|split]]]; try reflexivity; try exact I; [|cbn [sbuf]; lia].
+    apply tail_header_skip. apply len_app. }
+  cbn [andb].
+  destruct (N.eqb_spec (rt r) RT_BeginRequest) as [Ht3|Ht3].
+  { rewrite Ht3. rt_consts. destruct (N.eqb_spec (rid r) (r_id (ireq i))) as [Hid|Hid]; cbn [andb negb].
+    - apply Fskip.
+    - apply Fskip. }
+  cbn [andb].
+  destruct (N.eqb_spec (rt r) RT_GetValues) as [Ht4|Ht4]; cbn [andb]; [|apply Fskip].
+  destruct (N.eqb_spec (rid r) 0) as [Hid|Hid]; [|apply Fskip].
+  destruct (N.eqb_spec (len (rbody r ++ rpad r)) 0) as [He|He].
+  - apply len_zero_nil in He. apply app_eq_nil in He as [Eb Ep].
+    exists (ParamsValues i 0 0 0). rewrite Eb, Ep. split; [|split; [|split; [|split]]].
+    + reflexivity.
+    + reflexivity.
+    + cbn [state_ok]. split; [exact Hi|lia].
+    + cbn [sbuf]. lia.
+    + intros Hn. exfalso. apply Hn. repeat split; assumption.
+  - exists (Params i 0 0). split; [|split; [|split; [|split]]]; try reflexivity; [|exact Hok|cbn [sbuf]; lia].
+    rewrite (tail_values f (ParamsValues i) (Params i 0 0)); [reflexivity|reflexivity|reflexivity|].
+    intros E. rewrite E in He. apply He. reflexivity.
+Qed.
+
 End Records.
